@@ -4,6 +4,7 @@ import (
 	"fmt"
 	"go/token"
 	"go/types"
+	"strings"
 
 	"golang.org/x/tools/go/ssa"
 )
@@ -87,6 +88,19 @@ func c18(c *Check) {
 			{Label: "SetClientConsensusState", Callee: "keeper.(Keeper).SetClientConsensusState", N: 1, Args: map[int]string{1: "$1", 2: "$2", 3: "iface:xibc/exported.Header.GetHeight($3)", 4: "{UPD}#1"}, Under: []string{"({UPD}#2 == nil)"}},
 		},
 	})
+
+	c.Rule("C18/stored-exactly-once", "every success path of create / upgrade / toggle / update stores the client state exactly once (a success that silently skips the store — e.g. only when the height advanced — leaves the previous client in place; TSS heights never advance)", 4)
+	for _, f := range []string{"CreateClient", "UpgradeClient", "ToggleClient", "UpdateClient"} {
+		fn := c.F(clKeeper + "Keeper." + f)
+		paths := c.PathCounts(fn, func(cs *CallSite) bool { return strings.HasSuffix(cs.Name, "keeper.(Keeper).SetClientState") })
+		ok := len(paths) > 0
+		for _, p := range paths {
+			if p.Count != 1 {
+				ok = false
+			}
+		}
+		c.Req(ok, "C18/stored-exactly-once", funcName(fn), fn.Pos(), fmt.Sprint(len(paths), " success path(s)"), "a success path of "+f+" does not execute SetClientState exactly once")
+	}
 
 	c.Rule("C18/nil-interface-result", "contradiction rule: an implementation of an xibc/exported interface method returns constant nil for an interface-typed result while an in-scope caller invokes a method on that result (directly or one call deep) without a nil test", 1)
 	nilIfaceRule(c, "C18/nil-interface-result")
